@@ -6,8 +6,8 @@
     estimator, the truncation `as usize` of digits_ub. *)
 From Coq Require Import ZArith Reals Lia Lra Bool Psatz.
 From Flocq Require Import Core IEEE754.BinarySingleNaN.
-From Interval Require Import Tactic.
 From Dashu Require Import Base.Prelude Cross.XLog2Model.
+From Dashu Require Float.Log10Const.
 Open Scope R_scope.
 
 Notation fexp32 := (FLT_exp (3 - 128 - 24) 24).
@@ -726,7 +726,7 @@ End Libm2.
    ================================================================================================ *)
 (** core::f32::consts::LOG10_2 is not below log10(2) (CoqInterval) *)
 Lemma log10_2_const : 1 <= 10100891 / 33554432 * (ln 10 / ln 2).
-Proof. interval with (i_prec 60). Qed.
+Proof. exact Float.Log10Const.log10_2_f32_const. Qed.
 
 Lemma c_log10_2_R : b2r c_log10_2 = 10100891 / 33554432 /\ fin c_log10_2 = true.
 Proof.
@@ -802,3 +802,26 @@ Proof.
   pose proof (to_usize_ge log D Fl ltac:(change (2 ^ 64)%Z with 18446744073709551616%Z; lia) G). lia.
 Qed.
 End Libm3.
+
+(* ================================================================================================
+   non-vacuity: the correctly rounded logarithm satisfies the assumption
+   ================================================================================================ *)
+Definition lg_nearest (x : f32) : f32 :=
+  let r := rnd32 (log2R (b2r x)) in
+  f_dyadic (Ztrunc (scaled_mantissa radix2 fexp32 r)) (cexp32 r).
+
+Lemma lg_nearest_ok : lg_contract lg_nearest.
+Proof.
+  intros x n Fx Ex Hn. unfold lg_nearest. rewrite Ex. set (v := log2R (IZR n)). set (r := rnd32 v).
+  pose proof (log2R_int_range n Hn) as R. fold v in R.
+  assert (Fr : F32 r) by apply F32_rnd.
+  assert (E : F2R (Float radix2 (Ztrunc (scaled_mantissa radix2 fexp32 r)) (cexp32 r)) = r) by (symmetry; exact Fr).
+  assert (A : Rabs r <= IZR 24) by (apply rnd_abs_le; [lia | apply Rabs_le; lra]).
+  destruct (f_dyadic_R (Ztrunc (scaled_mantissa radix2 fexp32 r)) (cexp32 r)) as [V Fi].
+  - rewrite E. exact Fr.
+  - rewrite E. apply Rle_lt_trans with (1 := A). apply small_lt_max. lia.
+  - rewrite V, E. split; [exact Fi | ]. split; [apply pred_rnd_le | apply succ_rnd_ge].
+Qed.
+
+Example lg_contract_inhabited : exists lg, lg_contract lg.
+Proof. exists lg_nearest. exact lg_nearest_ok. Qed.
